@@ -50,7 +50,7 @@ func genPing(prop string, seed uint64, tier string) Scenario {
 	}
 	for i := 0; i < nops; i++ {
 		sc.Ops = append(sc.Ops, Op{K: "ping", T: r.n(npingers), M: r.n(3), I: r.n(2), X: r.n(len(pingTimeouts)),
-			P: r.weighted([]int{8, 3, 3, 3, 2, 2, 2, 2}), N: r.n(6), D: r.weighted([]int{6, 2, 3, 2, 2, 1})})
+			P: r.weighted([]int{8, 3, 4, 3, 2, 2, 2, 2}), N: r.n(6), D: r.weighted([]int{6, 2, 3, 2, 2, 1}), S: r.n(5)})
 		if r.chance(1, 5) {
 			sc.Ops = append(sc.Ops, Op{K: "unsolicited", T: 100, I: r.n(2), N: r.n(40), D: r.n(5), P: r.n(2)})
 		}
@@ -191,7 +191,13 @@ func runPing(e *exec) {
 			e.probe("responder_drop")
 		case rbDuplicate:
 			send(lat, mk(0, 129, id, false), true, id, "reply")
-			send(lat+time.Millisecond, mk(0, 129, id, false), true, id, "duplicate")
+			// the copy follows back to back (both queued before the loop reads either), shortly
+			// after, or after the ping has most likely returned
+			gap := []time.Duration{0, 0, time.Microsecond, time.Millisecond, 300 * time.Millisecond}[o.S%5]
+			send(lat+gap, mk(0, 129, id, false), true, id, "duplicate")
+			if gap == 0 {
+				e.probe("responder_duplicate_back_to_back")
+			}
 		case rbForeignID:
 			send(lat, mk(0, 129, id+1000, false), false, id+1000, "foreign_id")
 		case rbEchoRequest:
